@@ -17,7 +17,8 @@ CONSTANTS Shapes, Bug
 (* Shapes \subseteq {"bare", "list", "tuple", "dict", "nested", "state", "state_in_list"} *)
 
 Ops == {"call", "copy", "deepcopy", "pickle0", "pickle1", "pickle2", "pickle3", "pickle4", "pickle5"}
-LookAlikes == {"MISSING", "None", "False", "zero", "empty_str", "empty_tuple", "always_equal", "other_state"}
+(* "claims_class": an object that is not MISSING but reports Missing as its __class__ (a mock with spec=Missing, a proxy) *)
+LookAlikes == {"MISSING", "None", "False", "zero", "empty_str", "empty_tuple", "always_equal", "other_state", "claims_class"}
 
 VARIABLES shape, nids, obs
 vars == <<shape, nids, obs>>
